@@ -4806,8 +4806,12 @@ class FST:
                 ):
                     return self
 
-                if not allow_exact and same_ln and same_end_ln and fcol == col and fend_col == end_col:
-                    return self
+                if same_ln and same_end_ln and fcol == col and fend_col == end_col:
+                    if not allow_exact:
+                        return self
+
+                    if allow_exact == 'top':  # first exact match going down is the highest one
+                        return f
 
                 self = f
 
